@@ -1,6 +1,7 @@
 package main
 
 import (
+	"encoding/hex"
 	"bytes"
 	"fmt"
 	"strings"
@@ -102,6 +103,27 @@ func c18(r *hx.Run) {
 		s := honestSpec(rng)
 		s.Quote.Header = proto.Clone(src.Header).(*pb.Header)
 		s.Quote.Body = proto.Clone(src.TdQuoteBody).(*pb.TDQuoteBody)
+		// the generated TCB Info must describe THIS body (so that the collateral levels can accept the quote at all)
+		{
+			b := s.Quote.Body
+			s.Tcb.Mrsigner = hex.EncodeToString(b.MrSignerSeam)
+			mask, _ := hex.DecodeString(s.Tcb.Mask)
+			attrs := make([]byte, 8)
+			for i := range attrs {
+				attrs[i] = mask[i] & b.SeamAttributes[i]
+			}
+			s.Tcb.Attributes = hex.EncodeToString(attrs)
+			for li := range s.Tcb.Levels {
+				l := &s.Tcb.Levels[li]
+				if l.Status == "UpToDate" && l.Sgx[0] <= s.Cert("leaf").Sgx.Comps[0] {
+					for k := 0; k < 16; k++ {
+						l.Tdx[k] = int(b.TeeTcbSvn[k])
+					}
+				}
+			}
+			s.Tcb.Identities = append(s.Tcb.Identities, world.ModIdentity{ID: fmt.Sprintf("TDX_%02x", b.TeeTcbSvn[1]),
+				Levels: []world.ModLevel{{Isvsvn: int(b.TeeTcbSvn[0]), Status: "UpToDate"}}})
+		}
 		if mut != nil {
 			mut(s)
 		}
@@ -141,6 +163,16 @@ func c18(r *hx.Run) {
 		"leaf-expired":                func(s *world.Spec) { s.Cert("leaf").NotAfter = t0.Add(-24 * 365 * time.Hour) },
 		"body-changed-after-signing":  func(s *world.Spec) { s.MsgMut = append(s.MsgMut, func(q *pb.QuoteV4) { q.TdQuoteBody.MrTd[0] ^= 1 }) },
 		"rtmr-changed-after-signing":  func(s *world.Spec) { s.MsgMut = append(s.MsgMut, func(q *pb.QuoteV4) { q.TdQuoteBody.Rtmrs[3][0] ^= 1 }) },
+		// faults that only the requested checking level catches: the gate is verification UNDER THE GIVEN OPTIONS
+		"leaf-revoked":         func(s *world.Spec) { s.PckCrl.Revoked = append(s.PckCrl.Revoked, s.Cert("leaf").Serial) },
+		"intermediate-revoked": func(s *world.Spec) { s.RootCrls[0].Revoked = append(s.RootCrls[0].Revoked, s.Cert("inter").Serial) },
+		"tcb-signer-revoked":   func(s *world.Spec) { s.RootCrls[0].Revoked = append(s.RootCrls[0].Revoked, s.Cert("signer").Serial) },
+		"tcb-info-out-of-date": func(s *world.Spec) {
+			for i := range s.Tcb.Levels {
+				s.Tcb.Levels[i].Status = "OutOfDate"
+			}
+		},
+		"tcb-info-signed-by-foreign-key": func(s *world.Spec) { s.TcbResp.SignKey = 7 },
 	}
 	for name, f := range vfaults {
 		w, vo := build(f)
